@@ -1,6 +1,7 @@
 package main
 
 import (
+	"sort"
 	"encoding/binary"
 	"fmt"
 	"io"
@@ -27,6 +28,7 @@ var (
 	ipX = net.IP{10, 0, 0, 1}
 	ipY = net.IP{10, 0, 0, 2}
 	ipZ = net.IP{10, 0, 0, 3}
+	ipW = net.IP{10, 0, 0, 4}
 )
 
 // tableOf finds the *NetBIOSNameServer held privately by a server value (by type, via reflect/unsafe).
@@ -286,6 +288,70 @@ func nbnsScenarios(c *vf.Ctx, B int) []*scenario {
 			t.RegisterName("NY", nbtns.Unique, ipY, time.Hour)
 			t.RegisterName("NZ", nbtns.Unique, ipZ, time.Hour)
 		}
+		// G: a query for a group name racing with the release of a member that is not the last of the list
+		// (and, second variant, with a member joining): the answer is the member list before or after it
+		for _, upd := range []string{"release", "join"} {
+			upd := upd
+			out = append(out, &scenario{name: "nbns-" + im.name + "-group-query-vs-" + upd, keys: respKeys, bound: B, body: func(x *exec) {
+				s, t := im.mk()
+				seed(t)
+				t.RegisterName("GRP", nbtns.Group, ipX, time.Hour)
+				t.RegisterName("GRP", nbtns.Group, ipY, time.Hour)
+				t.RegisterName("GRP", nbtns.Group, ipZ, time.Hour)
+				if err := s.Start(); err != nil {
+					panic("harness: start: " + err.Error())
+				}
+				before := []string{ipX.String(), ipY.String(), ipZ.String()}
+				after := []string{ipY.String(), ipZ.String()}
+				req := mkUpdate(0x2222, 6, "GRP", ipX, true, 0)
+				if upd == "join" {
+					req = mkUpdate(0x2222, 5, "GRP", ipW, true, 3600)
+					after = []string{ipX.String(), ipY.String(), ipZ.String(), ipW.String()}
+				}
+				var rq, ru []resp
+				var h1, h2 *vrt.T
+				if im.tcp {
+					h1 = vrt.GoNamed("connQ", func() { rq, _ = tcpExchange("127.0.0.1:137", [][]byte{mkQuery(0x1111, 0, "GRP")}, 0) })
+					h2 = vrt.GoNamed("connR", func() { ru, _ = tcpExchange("127.0.0.1:137", [][]byte{req}, 0) })
+				} else {
+					h1 = vrt.GoNamed("clientQ", func() { rq = udpExchange(srvUDP, mkQuery(0x1111, 0, "GRP")) })
+					h2 = vrt.GoNamed("clientR", func() { ru = udpExchange(srvUDP, req) })
+				}
+				vrt.Join(h1)
+				vrt.Join(h2)
+				x.obs("query got %v; %s got %v", rq, upd, ru)
+				if len(rq) != 1 || len(ru) != 1 {
+					x.fail("exactly-one-response-per-request", "group query received %d responses, %s received %d", len(rq), upd, len(ru))
+				}
+				for _, r := range rq {
+					if r.rawID != 0x1111 {
+						x.fail("response-carries-own-transaction-id", "query sent id 1111 and received %v", r)
+						continue
+					}
+					if !r.parsed {
+						x.fail("response-is-parseable", "group query: the library cannot parse the server's own response: %s", r.perr)
+						continue
+					}
+					var got []string
+					for _, a := range r.answers {
+						got = append(got, strings.TrimSuffix(a, "@GRP"))
+					}
+					sort.Strings(got)
+					b, a := append([]string{}, before...), append([]string{}, after...)
+					sort.Strings(b)
+					sort.Strings(a)
+					if r.rcode != 0 || (fmt.Sprint(got) != fmt.Sprint(b) && fmt.Sprint(got) != fmt.Sprint(a)) {
+						x.fail("response-answers-own-question", "query for group GRP (members %v, concurrently %s -> %v) was answered %v: a member list the name table never had", before, upd, after, r)
+					}
+				}
+				for _, r := range ru {
+					if r.rawID != 0x2222 {
+						x.fail("response-carries-own-transaction-id", "%s client sent id 2222 and received %v", upd, r)
+					}
+				}
+				stopAndDrain(x, s)
+			}})
+		}
 		if !im.tcp {
 			// A: two/three concurrent datagram clients
 			for _, nc := range []int{2, 3} {
@@ -343,6 +409,28 @@ func nbnsScenarios(c *vf.Ctx, B int) []*scenario {
 				if _, _, err := t.QueryName("NX"); err != nil {
 					x.fail("response-answers-own-question", "NX disappeared although only NY was released")
 				}
+				stopAndDrain(x, s)
+			}})
+			// J: undecodable datagrams (too short; counts larger than the content) before and between requests:
+			// the server keeps answering, and Stop still returns
+			out = append(out, &scenario{name: "nbns-" + im.name + "-junk-datagrams-then-stop", keys: respKeys, bound: B, body: func(x *exec) {
+				s, t := im.mk()
+				seed(t)
+				if err := s.Start(); err != nil {
+					panic("harness: start: " + err.Error())
+				}
+				var r1 []resp
+				hj := vrt.GoNamed("clientJunk", func() {
+					udpExchange(srvUDP, []byte{0x12, 0x34, 0x00})
+				})
+				hk := vrt.GoNamed("clientJunk2", func() {
+					udpExchange(srvUDP, []byte{0x56, 0x78, 0x00, 0x00, 0x00, 0x05, 0x00, 0x00, 0x00, 0x00, 0x00, 0x00, 0x20})
+				})
+				h1 := vrt.GoNamed("clientNX", func() { r1 = udpExchange(srvUDP, mkQuery(0x1111, 0, "NX")) })
+				vrt.Join(hj)
+				vrt.Join(hk)
+				vrt.Join(h1)
+				checkQueryResp(x, "clientNX", 0x1111, "NX", ipX, r1, true)
 				stopAndDrain(x, s)
 			}})
 			// B: Stop at any moment relative to two in-flight requests
